@@ -28,6 +28,10 @@ def run(ctx):
         rjobs = [(rb, rhooks, seeds[20 + i], 2000, None, None, 150, False) for i in range(6)]
         with multiprocessing.Pool(6) as pool:
             outs += pool.map(storm.worker, rjobs)
+    # a session stuck behind its own output, KILLed / closed while its nickname is claimed ("each command takes effect
+    # atomically": KILL is one step, not a removal now and another one later)
+    from . import common
+    common.run_stuck(ctx, res)
     winners = set()
     orders = 0
     windows = 0
